@@ -93,10 +93,11 @@ class Ctx(object):
         self.extra = {}
         self.explained = {}
 
-    def explain(self, fi, node, why):
+    def explain(self, fi, node, why, part=None):
         """a property rule has decided, by reasoning about what it does, a statement or test that is written differently
-        from the confirmed source: the token-edit rule (Z3) need not ask about the same line again"""
-        self.explained[(fi.qualname, getattr(node, 'lineno', 0))] = why
+        from the confirmed source: the token-edit rule (Z3) need not ask about the same line again (`part`: only that
+        part of the line, e.g. 'default:flags')"""
+        self.explained[(fi.qualname, getattr(node, 'lineno', 0), part)] = why
 
     def rule(self, rid, title, engine='', floor=0):
         return Rule(self, rid, title, engine, floor)
